@@ -11,7 +11,8 @@ Driver for C03. One case = one history of requests on the process-wide context p
   accRef  = str    results of the four Accept* helpers on a brand-new context for this request (parameter)
   names   = <m> str^m    parameter names the probe asks for
   view    = <paramCount int> <all: m (k v)^m sorted> <map: m (k v)^m sorted> <version> <pattern> <aborted> <nerrors>
-            <acc str> <presence nat> <params: m (name value)^m> <retained: nat bitmask of non-clean fields after release>
+            <acc str> <presence nat> <params: m (name value)^m> <retained: nat bitmask of non-clean fields after release> <stable 0|1> <shared 0|1>
+  observation `P` = a panic in framework code, `T` = the history did not complete within the harness's bound
 -/
 namespace Rivaas.DriverC03
 open Rivaas.Proto Rivaas.Pool
@@ -24,6 +25,7 @@ inductive Dirty
   | setCount (n : Int)                -- c.SetParamCount(n)
   | accepts (hdr : Bytes)             -- an Accept* helper parsed and cached this header
   | index (n : Int)                   -- the chain ran: c.index is past the last handler
+  | panics                            -- the handler panicked out of ServeHTTP (deferred releases still reset; otherwise the object is dropped)
 
 def Dirty.apply : Dirty → Ctx → Ctx
   | .errors n, c => { c with errors := c.errors ++ List.replicate n 1 }
@@ -35,6 +37,7 @@ def Dirty.apply : Dirty → Ctx → Ctx
   | .setCount n, c => { c with paramCount := n }
   | .accepts h, c => { c with acceptHeader := h, acceptSpecs := 1, arena := 1 }
   | .index n, c => { c with index := n }
+  | .panics, c => c
 
 def pStep : P Step := do
   let k ← tok
@@ -58,6 +61,7 @@ def pDirty : P Dirty := do
   else if k == "C" then Dirty.setCount <$> int
   else if k == "X" then Dirty.accepts <$> str
   else if k == "N" then Dirty.index <$> int
+  else if k == "P" then pure Dirty.panics
   else failure
 
 structure Req where
@@ -87,11 +91,13 @@ structure Probe where
   params : List KV       -- Param(name) for every asked name
   deriving DecidableEq
 
-def pProbe : P (Probe × Nat) := do
+/-- probe, retained-object mask, `stable` (the view did not change while a nested request was served), `shared`
+    (the nested request's handler received the same *Context) -/
+def pProbe : P (Probe × Nat × Bool × Bool) := do
   let pc ← int; let all ← list pKV; let mp ← list pKV
   let v ← str; let pt ← str; let ab ← bool; let ne ← nat; let acc ← str; let pr ← nat
-  let ps ← list pKV; let retained ← nat
-  pure (⟨pc, all, mp, v, pt, ab, ne, acc, pr, ps⟩, retained)
+  let ps ← list pKV; let retained ← nat; let stable ← bool; let shared ← bool
+  pure (⟨pc, all, mp, v, pt, ab, ne, acc, pr, ps⟩, retained, stable, shared)
 
 /-- lexicographic order on byte strings -/
 def ltBytes : Bytes → Bytes → Bool
@@ -145,7 +151,9 @@ def step (line : String) : String :=
   match splitCase line with
   | none => "? bad-line"
   | some (id, inp, obs) =>
-    if obs == ["P"] then verdict id false false "-" "panic" else
+    -- a framework panic during the history, or a request that never completed: violations by themselves
+    if obs == ["P"] then verdict id false false "-" "framework-panic" else
+    if obs == ["T"] then verdict id false false "-" "request-never-completed" else
     match inp with
     | "H" :: rest =>
       match runP (do let rs ← list pReq; let ns ← list str; pure (rs, ns)) rest, runP (list pProbe) obs with
@@ -155,9 +163,13 @@ def step (line : String) : String :=
         let mSeen := mk seen
         let mFresh := mk fresh
         let impl := probes.map (·.1)
-        let mi := mSeen == impl
-        -- oracle: the implementation's view is the brand-new view, and the released object is clean
-        let s := mFresh == impl && probes.all (fun p => p.2 &&& (Nat.xor (2^30 - 1) retainedAllowed) == 0)
+        -- the model: two requests in flight never share a context, so nothing changes under a running handler
+        let exclusive := probes.all (fun p => p.2.2.1 && !p.2.2.2)
+        let mi := mSeen == impl && exclusive
+        -- oracle: the implementation's view is the brand-new view, it stays the request's own while another request
+        -- is served, no two in-flight requests hold the same context, and the released object is clean
+        let s := mFresh == impl && exclusive &&
+          probes.all (fun p => p.2.1 &&& (Nat.xor (2^30 - 1) retainedAllowed) == 0)
         verdict id mi s "-" s!"{mSeen.length}"
       | _, _ => s!"{id} bad-case"
     | _ => s!"{id} bad-case"
